@@ -15,7 +15,7 @@ type crashPoint struct {
 	file   string // the snapshot
 	resume int    // index of the first point of the remaining data
 	k      int    // point being processed (or just completed, for idle)
-	txIdx  int    // index of the commit within the point (before/after), -1 for idle
+	ntx    int    // number of commits completed before the crash
 }
 
 // run1 is the uninterrupted run of one history with all its snapshots.
@@ -37,50 +37,65 @@ func ev(name string, f rt.M) rt.M {
 	return m
 }
 
-func txFields(r *txRec, pre rt.M) rt.M {
-	m := rt.M{"topic": r.Topic, "id": r.ID, "op": r.Op, "lvl": r.Lvl}
-	for k, v := range pre {
-		m[k] = v
+func toldLens(told rt.M) map[string]int {
+	out := map[string]int{}
+	for t, v := range told {
+		out[t] = len(v.([]any))
 	}
-	return m
+	return out
 }
 
 // runPoints feeds hist[from:] into w, appending Point/Tx/Done events to *log.
-// onCommit (optional) is told about every commit: phase begin/end, the number of log events so far.
-func runPoints(w *world, hist []Pt, from int, log *[]rt.M, snapshot func(phase string, k, txIdx int, pre rt.M)) {
+// snapshot (optional) is called at every boundary: before / after each commit and
+// after each point.
+//
+// A Tx event is one committed transaction of the topic store:
+//
+//	topic,id,op,lvl  what was written (bucket, key, put|del, stored level)
+//	state,told       what the service API and the handlers showed when the commit was
+//	                 about to start (the in-memory update precedes the commit)
+//	src              "collect" if the topic's handlers were handed an event since the
+//	                 previous boundary, else "update" (Service.UpdateEvent)
+func runPoints(w *world, hist []Pt, from int, log *[]rt.M, snapshot func(phase string, k int, pre rt.M)) {
 	var pre rt.M
-	cur, txIdx := 0, 0
+	cur := 0
+	lens := toldLens(w.told())
 	w.onTx = func(phase string, r *txRec) {
 		if phase == "begin" {
-			// the in-memory update (and the hand-over to the handlers) of this collect has
-			// happened, the commit has not started: record what is observable right now
 			w.quiesce()
 			pre = rt.M{"state": w.state(), "told": w.told()}
 			if snapshot != nil {
-				snapshot("before", cur, txIdx, pre)
+				snapshot("before", cur, pre)
 			}
 			return
 		}
-		*log = append(*log, ev("Tx", txFields(r, pre)))
-		if snapshot != nil {
-			snapshot("after", cur, txIdx, nil)
+		f := rt.M{"topic": r.Topic, "id": r.ID, "op": r.Op, "lvl": r.Lvl, "state": pre["state"], "told": pre["told"], "src": "update"}
+		nl := toldLens(pre["told"].(rt.M))
+		if nl[r.Topic] > lens[r.Topic] {
+			f["src"] = "collect"
 		}
-		txIdx++
+		lens = nl
+		*log = append(*log, ev("Tx", f))
+		if snapshot != nil {
+			snapshot("after", cur, nil)
+		}
 	}
 	for k := from; k < len(hist); k++ {
-		cur, txIdx = k, 0
+		cur = k
 		*log = append(*log, ev("Point", rt.M{"k": k, "id": hist[k].ID, "lvl": hist[k].Lvl}))
 		w.feed(k, hist[k])
-		*log = append(*log, ev("Done", rt.M{"k": k, "state": w.state(), "told": w.told()}))
+		told := w.told()
+		lens = toldLens(told)
+		*log = append(*log, ev("Done", rt.M{"k": k, "state": w.state(), "told": told}))
 		if snapshot != nil {
-			snapshot("idle", k, -1, nil)
+			snapshot("idle", k, nil)
 		}
 	}
 	w.onTx = nil
 }
 
 // doRun1 executes the uninterrupted run and takes a snapshot at every boundary.
-func doRun1(c Cfg, hist []Pt, lineage int64) *run1 {
+func doRun1(c Cfg, hist []Pt, lineage int64, snapshots bool) *run1 {
 	r := &run1{cfg: c, hist: hist, dir: tmpDir()}
 	w, err := openWorld(join(r.dir, "run1.db"), c, lineage)
 	if err != nil {
@@ -88,25 +103,35 @@ func doRun1(c Cfg, hist []Pt, lineage int64) *run1 {
 	}
 	w.registerNamed()
 	w.startTask()
-	nsnap := 0
-	snap := func(phase string, k, txIdx int, pre rt.M) {
-		f := join(r.dir, fmt.Sprintf("s%d.db", nsnap))
-		nsnap++
-		if err := w.snap.Snapshot(f); err != nil {
-			rt.Fatalf("c08: snapshot: %v", err)
+	ntx := 0
+	snap := func(phase string, k int, pre rt.M) {
+		if phase == "after" {
+			ntx++
 		}
-		cp := crashPoint{at: phase, prefix: len(r.log), pre: pre, file: f, resume: k, k: k, txIdx: txIdx}
+		// the storage only changes at commits: one copy per number of completed commits
+		f := join(r.dir, fmt.Sprintf("s%d.db", ntx))
+		if _, err := os.Stat(f); err != nil {
+			if err := w.snap.Snapshot(f); err != nil {
+				rt.Fatalf("c08: snapshot: %v", err)
+			}
+		}
+		cp := crashPoint{at: phase, prefix: len(r.log), pre: pre, file: f, resume: k, k: k, ntx: ntx}
 		if phase == "idle" {
 			cp.resume = k + 1
 		}
 		r.points = append(r.points, cp)
 	}
-	// the state before any point is a crash point as well
-	r.log = append(r.log, ev("Start", rt.M{"state": w.state()}))
-	snap("idle", -1, -1, nil)
+	if !snapshots {
+		snap = nil
+	}
+	r.log = append(r.log, ev("Start", rt.M{"state": w.state(), "told": w.told()}))
+	if snapshots {
+		snap("idle", -1, nil) // the state before any point is a crash point as well
+	}
 	runPoints(w, hist, 0, &r.log, snap)
 	r.final = w.state()
 	r.told = w.told()
+	w.stopTask()
 	w.close(true)
 	// "after the last commit of point k" is the idle boundary after k: the point has
 	// completed all its commits, so it is not part of the remaining data
@@ -120,23 +145,68 @@ func doRun1(c Cfg, hist []Pt, lineage int64) *run1 {
 }
 
 // doRun2 restarts on the snapshot of cp, feeds the remaining data and returns the
-// complete two-run trace.
-func doRun2(r *run1, cp crashPoint, lineage int64) []rt.M {
+// complete two-run trace.  Crash points with the same storage content (same number
+// of completed commits) and the same remaining data have the same second run: it is
+// executed once (on its own copy of the snapshot) and shared.
+func doRun2(r *run1, cp crashPoint, lineage int64, tails map[[2]int][]rt.M) []rt.M {
 	tr := append([]rt.M(nil), r.log[:cp.prefix]...)
 	if cp.at == "before" {
 		tr = append(tr, ev("Pre", cp.pre))
 	}
 	tr = append(tr, ev("Crash", rt.M{"at": cp.at, "k": cp.k, "resume": cp.resume}))
-	w, err := openWorld(cp.file, r.cfg, lineage)
-	if err != nil {
-		rt.Fatalf("c08: reopen on snapshot: %v", err)
+	key := [2]int{cp.ntx, cp.resume}
+	tail, ok := tails[key]
+	if !ok {
+		file := fmt.Sprintf("%s.r%d", cp.file, cp.resume)
+		copyFile(cp.file, file)
+		w, err := openWorld(file, r.cfg, lineage)
+		if err != nil {
+			rt.Fatalf("c08: reopen on snapshot: %v", err)
+		}
+		// what the API reports after the restart, before any task runs
+		tail = append(tail, ev("Restart", rt.M{"state": w.state()}))
+		w.registerNamed()
+		w.startTask()
+		runPoints(w, r.hist, cp.resume, &tail, nil)
+		tail = append(tail, ev("End", rt.M{"final2": w.state(), "told2": w.told(), "final1": r.final, "told1": r.told}))
+		w.stopTask()
+		w.close(true)
+		tails[key] = tail
 	}
-	// what the API reports after the restart, before any task runs
-	tr = append(tr, ev("Restart", rt.M{"state": w.state()}))
+	return append(tr, tail...)
+}
+
+func copyFile(src, dst string) {
+	b, err := os.ReadFile(src)
+	if err == nil {
+		err = os.WriteFile(dst, b, 0o600)
+	}
+	if err != nil {
+		rt.Fatalf("c08: copy snapshot: %v", err)
+	}
+}
+
+// doTaskRestart: no crash; the task is stopped and started again in the same
+// process after point `at` (CloseTopic, RestoreTopic, restoreClosedTopic on the next
+// collect, restoreEvent for every ID).
+func doTaskRestart(r *run1, at int, lineage int64) []rt.M {
+	dir := tmpDir()
+	defer os.RemoveAll(dir)
+	w, err := openWorld(join(dir, "run.db"), r.cfg, lineage)
+	if err != nil {
+		rt.Fatalf("c08: open: %v", err)
+	}
 	w.registerNamed()
 	w.startTask()
-	runPoints(w, r.hist, cp.resume, &tr, nil)
+	tr := []rt.M{ev("Start", rt.M{"state": w.state(), "told": w.told()})}
+	runPoints(w, r.hist[:at+1], 0, &tr, nil)
+	w.stopTask()
+	stopped := w.state()
+	w.startTask()
+	tr = append(tr, ev("TaskRestart", rt.M{"k": at, "stopped": stopped, "state": w.state(), "told": w.told()}))
+	runPoints(w, r.hist, at+1, &tr, nil)
 	tr = append(tr, ev("End", rt.M{"final2": w.state(), "told2": w.told(), "final1": r.final, "told1": r.told}))
+	w.stopTask()
 	w.close(true)
 	return tr
 }
